@@ -279,12 +279,23 @@ def must_store(stmts: list[ast.stmt], name: str, setters: set[str], have: frozen
     """Slots of `name` definitely stored on every path through stmts.  Returns the set at fall-through or None when
     every path leaves; every `return e` is appended to exits as (e, set).  Stores inside loops / try / with bodies do not
     count (they may not execute); a `raise` ends its path."""
+    def fills(e: ast.AST | None) -> bool:
+        """`<matrix>._to_angle(name)`: stores all three slots of its argument on every path (that fact is the separate
+        obligation to_angle_stores_all_slots) and returns it"""
+        return isinstance(e, ast.Call) and isinstance(e.func, ast.Attribute) and e.func.attr == '_to_angle' and len(e.args) == 1 \
+            and not e.keywords and isinstance(e.args[0], ast.Name) and e.args[0].id == name
     for st in stmts:
         if isinstance(st, ast.Return):
-            exits.append((st.value, have))
+            if fills(st.value):
+                exits.append((st.value.args[0], have | frozenset(FIELDS)))
+            else:
+                exits.append((st.value, have))
             return None
         if isinstance(st, ast.Raise):
             return None
+        if isinstance(st, ast.Expr) and fills(st.value):
+            have = have | frozenset(FIELDS)
+            continue
         if isinstance(st, ast.If):
             a = must_store(st.body, name, setters, have, exits)
             b = must_store(st.orelse, name, setters, have, exits)
@@ -416,7 +427,14 @@ def angle_creations(tree: ast.Module) -> tuple[list[tuple[str, str, int]], dict]
                     # the object may only leave through `return name`; any other use of the name (argument, store
                     # elsewhere) besides attribute stores on it is not understood
                     uses = [u for u in _own_nodes(fn) if isinstance(u, ast.Name) and u.id == nm and isinstance(u.ctx, ast.Load)]
-                    ok_uses = all(isinstance(parent.get(id(u)), (ast.Attribute, ast.Return)) for u in uses)
+                    def use_ok(u: ast.AST) -> bool:
+                        pu = parent.get(id(u))
+                        if isinstance(pu, (ast.Attribute, ast.Return)):
+                            return True
+                        # handed to _to_angle as a statement of its own or in a return (it fills and returns its argument)
+                        return isinstance(pu, ast.Call) and isinstance(pu.func, ast.Attribute) and pu.func.attr == '_to_angle' \
+                            and len(pu.args) == 1 and pu.args[0] is u and isinstance(parent.get(id(pu)), (ast.Expr, ast.Return))
+                    ok_uses = all(use_ok(u) for u in uses)
                     if rets and all(h >= set(FIELDS) for h in rets) and ok_uses and fall is None:
                         kind = 'RawStored'
                 out.append((where, kind, n.lineno))
@@ -1339,6 +1357,11 @@ def result_kinds(tree: ast.Module) -> tuple[list[tuple[str, str, str]], dict]:
         # a copy-like method whose return expression says nothing by its form (`return self.copy()`, `return
         # Py_FrozenVec(self)` in the mutable class, a helper method) is RUN symbolically on a receiver of this concrete
         # class: the object it returns is the receiver itself or one created during the run
+        if cls.startswith('Frozen') and table.get('__new__') in ('RUnknown', 'RArg'):
+            k = sym.ctor_kind(cls)
+            if k is not None:
+                table['__new__'] = k
+                info.setdefault('kinds_from_symbolic_run', []).append(f'{cls}.__new__')
         for m in COPYLIKE:
             if table.get(m) == 'RUnknown':
                 r = sym.shape(cls, m)
@@ -1731,6 +1754,32 @@ class _Sym:
         if isinstance(v, _T):
             return tuple(self.plain(x) for x in v.items)
         raise _Unk('symbolic value where a constant is needed')
+
+    # ---- the constructor of a frozen class
+    def ctor_kind(self, cls: str) -> str | None:
+        """__new__ of a frozen class run on (1) an object of that class, (2) an object of its mutable twin, (3) no
+        argument: 'RArgFrozen' when (1) returns the argument itself and (2), (3) return a new object of the class;
+        'RFresh' when all three are new; None when the run is not understood or says anything else."""
+        new = self.find(self.meth, cls, '__new__')
+        twin = cls[len('Frozen'):]
+        if new is None or twin not in CONCRETE:
+            return None
+        res = []
+        try:
+            for arg in (_O(cls, is_self=True), _O(twin, is_self=True), None):
+                self.steps = 0
+                r = self.call_fn(new, [_C(cls)] + ([arg] if arg is not None else []), 0)
+                if not isinstance(r, _O):
+                    return None
+                if r is arg:
+                    res.append('same')
+                elif not r.is_self and r.cls == cls and all(sl in r.slots for sl in self.slots(cls)):
+                    res.append('new')
+                else:
+                    return None
+        except (_Unk, RecursionError):
+            return None
+        return {('same', 'new', 'new'): 'RArgFrozen', ('new', 'new', 'new'): 'RFresh'}.get(tuple(res))
 
     # ---- one copy-like method
     def shape(self, cls: str, meth: str):
